@@ -144,10 +144,10 @@ def run(chk):
                         def cls(t):
                             if any(math.isclose(t, z, rel_tol=1e-9) for z in zero):
                                 return "split-keeps-nothing"
-                            if join_chain(t):
-                                return "join-chain"
                             if nsplits(t) >= 2:
                                 return "several-same-time-splits"
+                            if join_chain(t):
+                                return "join-chain"
                             return None
                         classes = sorted(set(cls(t) for t in tb), key=str)
                     if classes and None not in classes:
